@@ -134,8 +134,9 @@ def call(case, ctx, inc):
         # canonical: the class of a mapping (dict / OrderedDict / CommentedMap) is not observed
         for name in ("'collections.OrderedDict'", "'CommentedMap'", "'ruamel.yaml.comments.CommentedMap'"):
             msg = msg.replace('unhashable type: ' + name, "unhashable type: 'dict'")
-        for name in ('OrderedDict', 'CommentedMap', 'ordereddict'):
-            msg = msg.replace('passed to ' + name + '.__format__', 'passed to dict.__format__')
+        import re
+        msg = re.sub(r'passed to (collections\.OrderedDict|OrderedDict|CommentedMap|ordereddict)\.__format__',
+                     'passed to dict.__format__', msg)
         msg = msg.replace('passed to frozenset.__format__', 'passed to set.__format__')
         return ['err', get_error_name(e), msg]
 
